@@ -93,6 +93,11 @@ func Classify(files map[string]bool, name string, args []string) (tool, kind, fi
 }
 
 // Judge applies the history oracle; it returns "" when everything holds.
+// Unstartable names the tools whose failing run cannot even be started in the
+// current world (an executable whose interpreter does not exist): such a run
+// leaves no trace in the exec log, the request must still report an error.
+var Unstartable = map[string]bool{}
+
 func Judge(w World, events []Event, results []Result) (clause, detail string) {
 	probes := map[string]int{}
 	for _, e := range events {
@@ -131,6 +136,13 @@ func Judge(w World, events []Event, results []Result) (clause, detail string) {
 			}
 			if r.HasErr {
 				return "absent_tool_request_fails", fmt.Sprintf("request %v: tool %s is %s, got error %q", r.Req, t, w.State[t], r.Err)
+			}
+		case w.State[t] == RunFails && Unstartable[t]:
+			if any != 0 {
+				return "formatter_not_run_exactly_once", fmt.Sprintf("request %v: tool %s cannot be started, yet %d run(s) are logged", r.Req, t, any)
+			}
+			if !r.HasErr {
+				return "failing_run_not_reported", fmt.Sprintf("request %v: the formatter could not be started but FormatFile returned nil", r.Req)
 			}
 		default:
 			if right != 1 || any != 1 {
